@@ -1,7 +1,16 @@
 import functools
-from typing import Any, Callable, Generator, Iterable, Iterator, MutableMapping, Tuple
+from typing import (
+    Any,
+    Callable,
+    Generator,
+    Iterable,
+    Iterator,
+    List,
+    MutableMapping,
+    Tuple,
+)
 
-from ..datastructures import Headers
+from ..datastructures import Headers, RawCookie
 from ..typing import Environ, StartResponse, WSGIApp
 from .requests import Request
 from .responses import Response, StreamingResponse
@@ -49,6 +58,7 @@ class NextResponse(StreamingResponse):
         """
         status_code = 200
         headers: Headers = Headers()
+        cookies: List[str] = []
 
         def start_response(
             status: str, response_headers: Iterable[Tuple[str, str]], exc_info=None
@@ -56,10 +66,17 @@ class NextResponse(StreamingResponse):
             nonlocal status_code
             nonlocal headers
             status_code = int(status.split(" ")[0])
-            headers = Headers(response_headers)
+            response_headers = list(response_headers)
+            # Several Set-Cookie lines must not be folded into one header.
+            headers = Headers(
+                (k, v) for k, v in response_headers if k.lower() != "set-cookie"
+            )
+            cookies[:] = [v for k, v in response_headers if k.lower() == "set-cookie"]
 
         body = ensure_next(app(request, start_response))
-        return NextResponse(body, status_code, headers)
+        response = NextResponse(body, status_code, headers)
+        response.cookies.extend(RawCookie(line) for line in cookies)  # type: ignore
+        return response
 
 
 def middleware(
